@@ -1239,7 +1239,7 @@ impl OrderSensitiveArrayAggAccumulator {
         })
     }
 
-    fn sort(&mut self) {
+    fn sort(&mut self) -> Result<()> {
         let sort_options = self
             .ordering_req
             .iter()
@@ -1259,6 +1259,7 @@ impl OrderSensitiveArrayAggAccumulator {
             )
         });
         (self.values, self.ordering_values) = values.into_iter().unzip();
+        delayed_cmp_err
     }
 
     fn evaluate_orderings(&self) -> Result<ScalarValue> {
@@ -1350,7 +1351,7 @@ impl Accumulator for OrderSensitiveArrayAggAccumulator {
 
         // Existing values should be merged also.
         if !self.is_input_pre_ordered {
-            self.sort();
+            self.sort()?;
         }
         partition_values.push(take(&mut self.values).into());
         partition_ordering_values.push(take(&mut self.ordering_values).into());
@@ -1406,7 +1407,7 @@ impl Accumulator for OrderSensitiveArrayAggAccumulator {
 
     fn state(&mut self) -> Result<Vec<ScalarValue>> {
         if !self.is_input_pre_ordered {
-            self.sort();
+            self.sort()?;
         }
 
         let mut result = vec![self.evaluate()?];
@@ -1417,7 +1418,7 @@ impl Accumulator for OrderSensitiveArrayAggAccumulator {
 
     fn evaluate(&mut self) -> Result<ScalarValue> {
         if !self.is_input_pre_ordered {
-            self.sort();
+            self.sort()?;
         }
 
         if self.values.is_empty() {
